@@ -113,6 +113,19 @@ def mc_case(case):
                 continue
             if not close(asui, saidi / float(period), 1e-9) or not close(asai + asui, 1.0, 1e-9) or not (-1e-12 <= asui <= 1 + 1e-12):
                 viols.append(("mc.asui", f"iteration {it}, {name}: ASUI {asui}, ASAI {asai}, SAIDI {saidi} h over a period of {float(period)} h (step {case.get('step_min', 60)} min, unit {c17.U(case.get('unit', 3)).name}): ASUI must be SAIDI / period = {saidi / float(period)}"))
+        # SAIFI / SAIDI / CAIDI of every level from what the same iteration reports for the load points
+        for nw in [ps] + list(ps.child_network_list):
+            bl = list(nw.buses)
+            N = sum(b.n_customers for b in bl)
+            saifi_r, saidi_r, caidi_r = val(nw.name, "SAIFI"), val(nw.name, "SAIDI"), val(nw.name, "CAIDI")
+            if saifi_r is None or not N or any(val(b.name, "acc_interruptions") is None for b in bl):
+                continue
+            saifi_w = sum(val(b.name, "acc_interruptions") * b.n_customers for b in bl) / N
+            saidi_w = sum(val(b.name, "acc_outage_time") * b.n_customers for b in bl) / N
+            if not close(saifi_r, saifi_w, 1e-9) or not close(saidi_r, saidi_w, 1e-9):
+                viols.append(("mc.saifi", f"iteration {it}, {nw.name}: SAIFI {saifi_r} / SAIDI {saidi_r} h, the load points of the same iteration give {saifi_w} / {saidi_w}"))
+            elif abs(saifi_r) >= 1e-6 and caidi_r is not None and not close(caidi_r, saidi_r / saifi_r, 1e-9):
+                viols.append(("mc.caidi", f"iteration {it}, {nw.name}: CAIDI {caidi_r} is not SAIDI / SAIFI = {saidi_r / saifi_r}"))
         for attr in tot:
             sv = val(ps.name, attr)
             if sv is not None and not close(sv, tot[attr], 1e-9):
